@@ -41,6 +41,7 @@ func ZZ_C18_Snapshots() {
 	a := zzAgent(c)
 	uni := zzUniverse(c.Member(), U)
 	allKinds := []string{"a", "b", "c", "d"}
+	res := ze.Register("res/0") // receives the agent's answers to getMembers / getKinds
 
 	prev := make([]bool, U)
 	for step := 0; step < N; step++ {
@@ -119,6 +120,46 @@ func ZZ_C18_Snapshots() {
 				}
 			}
 			zzrt.Assert(a.kinds[k] == want, "C18:kind-set-differs-from-view")
+		}
+		// what Cluster.Members() and Cluster.HasKind() are answered by the agent (the same messages those
+		// methods send; the Request/Result plumbing around them is C11's subject)
+		before := len(res.Got)
+		a.Receive(actor.ZZContext(ze.E, c.agentPID, getMembers{}, res.Pid))
+		a.Receive(actor.ZZContext(ze.E, c.agentPID, getKinds{}, res.Pid))
+		zzrt.Assert(len(res.Got) == before+2, "C18:Members-or-HasKind-request-not-answered-once")
+		if len(res.Got) == before+2 {
+			ms, ok := res.Got[before].Msg.([]*Member)
+			zzrt.Assert(ok && len(ms) == n, "C18:Members()-differs-from-snapshot")
+			for i := 0; i < U && ok; i++ {
+				cnt := 0
+				for _, m := range ms {
+					if m != nil && m.ID == uni[i].ID {
+						cnt++
+					}
+				}
+				want := 0
+				if in[i] {
+					want = 1
+				}
+				zzrt.Assert(cnt == want, "C18:Members()-differs-from-snapshot")
+			}
+			ks, ok := res.Got[before+1].Msg.([]string)
+			zzrt.Assert(ok, "C18:HasKind-answer-is-not-a-kind-list")
+			for _, k := range allKinds {
+				want := false
+				for i := 0; i < U; i++ {
+					if in[i] && uni[i].HasKind(k) {
+						want = true
+					}
+				}
+				has := false
+				for _, x := range ks {
+					if x == k {
+						has = true
+					}
+				}
+				zzrt.Assert(has == want, "C18:HasKind-differs-from-view")
+			}
 		}
 		prev = in
 	}
